@@ -1,6 +1,7 @@
 package main
 
 import (
+	"fmt"
 	"math/rand"
 )
 
@@ -288,5 +289,116 @@ func genHistory(id int, seed int64, p GenParams) *History {
 	if p.IxProbe {
 		g.add(Op{Op: "ixprobe", Var: p.IxProbeExtra, Arg: rng.Int63()})
 	}
+	return h
+}
+
+// ---- C13 generators
+
+var extremeTimes = []int64{
+	-1 << 63, -1<<63 + 1, -62135596800000000 + 1, -1000000, -1, 0, 1, 999999, 1000000,
+	1700000000000000, 1700000000000001, 253402300799999999, 1<<62 + 12345, 1<<63 - 2, 1<<63 - 1,
+}
+
+// genSweepHistory: messages with key/value lengths sweeping 0..300 (and a few large), times over the int64
+// microsecond range, written by the real writer, read back through the head (file reader) and through
+// closed segments (mmap reader), before and after reopen.
+func genSweepHistory(id int, seed int64) *History {
+	rng := rand.New(rand.NewSource(seed*1000003 + int64(id)))
+	h := &History{ID: id, Keys: id&1 == 1, Times: id&2 == 2, Mono: false, TimeTable: extremeTimes}
+	ver := 1 + (id>>2)&1
+	o := &OptSpec{Rollover: int64(2000 + rng.Intn(6000)), NewVer: ver}
+	h.Ops = append(h.Ops, Op{Op: "open", O: o})
+	vid := 0
+	a, b := rng.Intn(301), rng.Intn(301)
+	for i := 0; i < 40; i++ {
+		op := Op{Op: "publish"}
+		for k := 0; k < 1+rng.Intn(4); k++ {
+			kl, vl := (a+7*(i*4+k))%301, (b+13*(i*4+k))%301
+			if rng.Intn(60) == 0 {
+				vl = pick(rng, []int{65536, 300000, 1 << 20})
+			}
+			m := MsgSpec{K: "n", T: int64(rng.Intn(len(extremeTimes)))}
+			if kl > 0 {
+				m.K = fmt.Sprintf("k%d", kl)
+			}
+			if vl > 0 {
+				vid++
+				m.V, m.VL = vid, vl
+			}
+			op.Batch = append(op.Batch, m)
+		}
+		h.Ops = append(h.Ops, op)
+		if i%13 == 12 {
+			h.Ops = append(h.Ops, Op{Op: "close"}, Op{Op: "open", O: &OptSpec{Rollover: o.Rollover, NewVer: ver, RO: i%2 == 0}})
+			if i%2 == 0 {
+				h.Ops = append(h.Ops, Op{Op: "close"}, Op{Op: "open", O: o})
+			}
+		}
+	}
+	h.Ops = append(h.Ops, Op{Op: "close"})
+	return h
+}
+
+// genSynthHistory: a directory written by the reference encoder, then opened and used by the real code.
+func genSynthHistory(id int, seed int64) *History {
+	rng := rand.New(rand.NewSource(seed*1000003 + int64(id)))
+	h := &History{ID: id, Keys: id&1 == 1, Times: id&2 == 2, Mono: true}
+	op := Op{Op: "synth", Var: rng.Intn(1 << 30)}
+	n := rng.Intn(14)
+	off := int64(0)
+	if rng.Intn(3) == 0 {
+		off = int64(rng.Intn(50))
+	}
+	t := int64(1000)
+	vid := 0
+	pool := []string{"n", "a", "b", "g", "h", "i", "k17", "k300"}
+	for i := 0; i < n; i++ {
+		m := MsgSpec{K: pick(rng, pool)}
+		if rng.Intn(5) > 0 {
+			vid++
+			m.V, m.VL = vid, pick(rng, []int{1, 5, 40, 300})
+		}
+		t += int64(rng.Intn(3))
+		m.T = t
+		op.Batch = append(op.Batch, m)
+		op.S = append(op.S, off)
+		off += int64(1 + rng.Intn(3)/2) // occasional holes
+	}
+	left := n
+	for left > 0 {
+		k := 1 + rng.Intn(4)
+		if k > left {
+			k = left
+		}
+		op.Segs = append(op.Segs, k)
+		left -= k
+	}
+	if n == 0 || rng.Intn(3) == 0 {
+		op.Segs = append(op.Segs, 0) // empty head segment named after the next offset
+	}
+	h.Ops = append(h.Ops, op)
+	o := &OptSpec{Rollover: pick(rng, []int64{60, 300, 5000}), NewVer: rng.Intn(3), RO: rng.Intn(3) == 0, Check: rng.Intn(2) == 0}
+	h.Ops = append(h.Ops, Op{Op: "open", O: o})
+	if o.RO {
+		h.Ops = append(h.Ops, Op{Op: "close"}, Op{Op: "open", O: &OptSpec{Rollover: o.Rollover, NewVer: o.NewVer}})
+	}
+	// use it: append, delete, reopen
+	for i := 0; i < 4; i++ {
+		switch rng.Intn(3) {
+		case 0:
+			b := Op{Op: "publish"}
+			for k := 0; k < 1+rng.Intn(2); k++ {
+				vid++
+				t += int64(rng.Intn(3))
+				b.Batch = append(b.Batch, MsgSpec{K: pick(rng, pool), V: vid, VL: 10, T: t})
+			}
+			h.Ops = append(h.Ops, b)
+		case 1:
+			h.Ops = append(h.Ops, Op{Op: "delete", S: []int64{int64(rng.Intn(int(off) + 2))}})
+		default:
+			h.Ops = append(h.Ops, Op{Op: "close"}, Op{Op: "open", O: &OptSpec{Rollover: o.Rollover, NewVer: o.NewVer, Check: true}})
+		}
+	}
+	h.Ops = append(h.Ops, Op{Op: "close"})
 	return h
 }
